@@ -94,10 +94,14 @@ func runC15(ctx *Ctx) {
 	rep := ctx.Rep
 	rep.Rule = "<title> strings built from words (ASCII and non-ASCII, apostrophes) joined by every separator (' - ', ' | ', ' / ', ' > ', ' » ', ' \\ ', ': ', ':' ...) with lengths around 15 and 150 characters (also > 150 bytes but < 150 characters), with / without h1, h2, OpenGraph title, and with a heading or paragraph that repeats the title inside the content; distinct by (separator shape, length class, heading/markup presence, repeat kind); non-trivial = the heuristic took a branch other than 'return the original' or a block equals the title"
 	corr := newCorr("title")
+	fl := newCorr("filters")
 	run := func(c titleCase, src string) {
 		rep.Evaluations++
 		d := parseDoc(src)
 		replay := map[string]interface{}{"html": src, "case": c}
+		// the article extractor, stage by stage (title_block_labelled is about its model)
+		addFiltersCase(fl, rep, src, nil, true, replay)
+		addFiltersCase(fl, rep, src, nil, false, replay)
 		ti := distiller.VerifTitle(d.elementRoot())
 		// ---- correspondence (ASCII titles: the List Char model is exact there)
 		if isASCII(ti.TitleText) && isASCII(ti.H1Text) && isASCII(ti.Markup) {
@@ -170,6 +174,7 @@ func runC15(ctx *Ctx) {
 		readReplay(ctx.Replay, &r)
 		run(r.Case, r.HTML)
 		corr.run(ctx)
+		fl.run(ctx)
 		return
 	}
 	n := ctx.pick(1500, 40000)
@@ -208,4 +213,5 @@ func runC15(ctx *Ctx) {
 		run(c, c.html(g))
 	}
 	corr.run(ctx)
+	fl.run(ctx)
 }
